@@ -369,4 +369,11 @@ MUTANTS = [
     M("c02-turn-rollover-no-fill", ["C02"], (FE, "        self.current_river_index = self.current_turn_index + 1;\n        self.current_player_indexes.fill(0);", "        self.current_river_index = self.current_turn_index + 1;")),
     M("c02-rollover-fill-one", ["C02"], (FE, "            self.current_river_index += 1;\n            self.current_player_indexes.fill(0);", "            self.current_river_index += 1;\n            self.current_player_indexes.fill(1);")),
     M("benign-c02-fill-before-advance", ["C02", "C04"], (FE, "            self.current_river_index += 1;\n            self.current_player_indexes.fill(0);", "            self.current_player_indexes.fill(0);\n            self.current_river_index += 1;"), benign=True),
+    # survivors of the baseline tests found by tools/mutgen.py that no check reported at first
+    M("mg-collision-and", ["C02"], (FE, "                || self.current_used_cards.contains(&entry.0[1])", "                && self.current_used_cards.contains(&entry.0[1])")),
+    M("mg-flag-true", ["C02"], (FE, "                is_materialized = false;", "                is_materialized = true;")),
+    M("mg-scan-from-1", ["C02"], (FE, "        for i in 0..self.current_player_indexes.len() {\n            let ri", "        for i in 1..self.current_player_indexes.len() {\n            let ri")),
+    M("mg-cards-board-dup", ["C03"], (SD, "            self.board[0],\n            self.board[1],", "            self.board[1],\n            self.board[1],")),
+    M("mg-cards-hole-dup", ["C03"], (SD, "            self.hole_cards[0],\n            self.hole_cards[1],", "            self.hole_cards[0],\n            self.hole_cards[0],")),
+    M("mg-record-board-order", ["C03"], (SD, "board: [board[0], board[1], board[2], board[3], board[4]],", "board: [board[1], board[0], board[2], board[3], board[4]],")),
 ]
